@@ -169,9 +169,20 @@ func vSymName(tag string, n int) string {
 
 // free-form payload. Shape 0 is one rich value holding every JSON kind (string, number, booleans, nulls,
 // empty objects, nesting, zero) and, under a symbolic bit, empty arrays; the other shapes are bare values.
+// vPayloadFork: set by a harness that wants the default value of the top-level document to fork over shapes
+var vPayloadFork bool
+
 func vAnyVal(tag string, depth int) vJ {
 	k := vParam("any_shapes", 2)
-	switch vVar(k, tag+".shape") {
+	shape := 0
+	if vPayloadFork && vParam("payload_fork", 0) == 1 && tag == "d.default" {
+		// the payload of the top-level document takes, besides the rich value, a bare number (zero included)
+		// and a bare string (empty included): zero values are where typed lookups and encoders disagree
+		shape = []int{0, 2, 1}[vChoose(3, tag+".shapefork")]
+	} else {
+		shape = vVar(k, tag+".shape")
+	}
+	switch shape {
 	case 0:
 		f := vNondetFloat64(tag + ".f")
 		vAssume(vFinite(f))
